@@ -565,6 +565,24 @@ func c06FileDefaultsNotImported(c *Check, a *Anchors, rule string) {
 				}
 				n++
 				why, okW := taskfileMergeWrites[sel.Sel.Name]
+				// a write whose value does not involve the included Taskfile imports nothing from it (initialisations, a
+				// snapshot of the file's own state)
+				if !okW {
+					fromIncluded := false
+					for _, r := range as.Rhs {
+						ast.Inspect(r, func(m ast.Node) bool {
+							if id, ok := m.(*ast.Ident); ok {
+								if v, ok := info.Uses[id].(*types.Var); ok && v != recv && isNamed(v.Type(), PkgAst, "Taskfile") {
+									fromIncluded = true
+								}
+							}
+							return true
+						})
+					}
+					if !fromIncluded {
+						why, okW = "the value does not come from the included Taskfile", true
+					}
+				}
 				c.Decide(okW, rule, "merge-writes Taskfile."+sel.Sel.Name, as.Pos(), "reviewed: "+why,
 					"Taskfile.Merge assigns the including Taskfile's "+sel.Sel.Name+": a file-wide default of the root Taskfile now depends on what its includes declare (for Run: every task of the root without its own run: is deduplicated like the include's tasks)")
 			}
